@@ -36,7 +36,12 @@ var patchFmts = []patchFmt{{"Unified", "-u", mdiff.Unified}, {"Context", "-c", m
 // runPatchBatch applies one format's renderings of cases[lo:hi] in a single
 // patch invocation; it returns the indices whose result is wrong and the
 // tool's output.
-func runPatchBatch(dir string, pf patchFmt, cases []FmtCase) (bad []int, out string, err error) {
+func runPatchBatch(dir string, pf patchFmt, in []FmtCase) (bad []int, out string, err error) {
+	cases := make([]FmtCase, len(in)) // long lines are symbolic in cases: expand them
+	for i, c := range in {
+		c.L, c.R = expandLines(c.L), expandLines(c.R)
+		cases[i] = c
+	}
 	os.RemoveAll(dir)
 	if err := os.MkdirAll(dir, 0o755); err != nil {
 		return nil, "", err
@@ -121,8 +126,8 @@ func runPatchOne(pc PatchCase, o *vk.Obs) string {
 			got, _ := os.ReadFile(filepath.Join(dir, "f0"))
 			var buf bytes.Buffer
 			pf.ff(&buf, pc.diff().Chunks, &mdiff.FileInfo{Left: "f0", Right: "f0"})
-			return fmt.Sprintf("%s: GNU patch --fuzz=0 applied to Left with the %s rendering gives %q, want Right %q; patch said: %q\nrendering:\n%s",
-				pc.FmtCase, pf.name, strings.Split(strings.TrimSuffix(string(got), "\n"), "\n"), pc.R, out, buf.String())
+			return fmt.Sprintf("%s: GNU patch --fuzz=0 applied to Left with the %s rendering gives %s, want Right %s; patch said: %q\nrendering:\n%.3000s",
+				pc.FmtCase, pf.name, showLines(strings.Split(strings.TrimSuffix(string(got), "\n"), "\n")), showLines(expandLines(pc.R)), out, buf.String())
 		}
 	}
 	return ""
